@@ -57,8 +57,8 @@ Definition on_eqb (a b : option nat) : bool :=
   match a, b with Some x, Some y => x =? y | None, None => true | _, _ => false end.
 (* expected: the tags read back from the implementation's _e, _g, _h, _h_inv and the value of the
    public getter h, plus the number of coordinate changes *)
-Definition check_machine (ops : list cop) (v : nat) (e g h hinv oh : option nat) : bool :=
-  let s := crun cinit ops in
+Definition check_machine (k : ckind) (ops : list cop) (v : nat) (e g h hinv oh : option nat) : bool :=
+  let s := crun k cinit ops in
   (ver s =? v) && on_eqb (t_e s) e && on_eqb (t_g s) g && on_eqb (t_h s) h && on_eqb (t_hinv s) hinv &&
   on_eqb (obs_h s) oh.
 
